@@ -198,7 +198,11 @@ func buildTx(w *harness.World, o op, amount int64, memo string) *harness.TxSpec 
 	case opRelease:
 		return stk.Release(w.Vals[o.actor].Val, memo)
 	case opStake:
-		return stk.Stake(w.Vals[o.actor], w.Vals[o.actor].Stake, stk.WholeOLT(amount), memo)
+		payer := w.Vals[o.actor].Stake
+		if o.payer > 0 {
+			payer = w.Vals[o.payer-1].Stake
+		}
+		return stk.Stake(w.Vals[o.actor], payer, stk.WholeOLT(amount), memo)
 	case opUnstake:
 		return stk.Unstake(w.Vals[o.actor].Val, w.Vals[o.actor].Stake, stk.WholeOLT(amount), memo)
 	case opWithdraw:
